@@ -30,7 +30,11 @@ uint32_t pr_side(void) { return (uint32_t)side; }
 #define PR_STR(x) PR_STR2(x)
 #ifdef __CPROVER__
 #define PR_ASSERT(c, id) __CPROVER_assert((c), "vassert:" PR_STR(id))
+#ifdef VERIF_NOWITNESS
+#define PR_WITNESS(id) do { } while (0)
+#else
 #define PR_WITNESS(id) __CPROVER_assert(0, "vwitness:" PR_STR(id))
+#endif
 #else
 #define PR_ASSERT(c, id) vassert((c), (id))
 #define PR_WITNESS(id) vwitness(id)
